@@ -1,6 +1,7 @@
 use crate::engine::Tier;
 use crate::sut::Sut;
 
+pub mod c01;
 pub mod c02;
 pub mod c03;
 pub mod c04;
@@ -59,6 +60,7 @@ macro_rules! dispatch {
 }
 
 dispatch! {
+    "C01" => c01,
     "C02" => c02,
     "C03" => c03,
     "C04" => c04,
